@@ -43,8 +43,18 @@ def main(chk):
                 data, names, sizes = dprec.make_data(rng, with_size1=False)
                 from mbi import Dataset
                 data = Dataset(data.df.iloc[:rng.choice([4, 9])].reset_index(drop=True), data.domain)
-            if name == 'mwem' and rng.random() < 0.5:
-                params['bounded'] = False           # add/remove neighbours change the record count
+            if name == 'mwem':
+                combos = [('laplace', True), ('gaussian', False), ('gaussian', True), ('laplace', False)]
+                params['noise'], params['bounded'] = combos[r % len(combos)]      # every noise kind x adjacency in turn (add/remove neighbours change the record count)
+            if name == 'aim' and r % 3 == 0:
+                # a workload whose downward closure does not touch every attribute: the untouched attributes must still be in the output
+                import itertools
+                while len(names) < 3:
+                    data, names, sizes = dprec.make_data(rng, with_size1=False)
+                params = dprec.gen_params(rng, name, names)
+                keep = names[:-1] if rng.random() < 0.5 else names[1:]
+                params['workload'] = [tuple(c) for c in itertools.combinations(keep, 2)]
+                params['partial_workload'] = True
             if name == 'aim' and r % 3 == 2:
                 params['explicit_prng'] = True      # the constructor's third positional parameter is not the generator everywhere
             if name == 'adagrid' and r % 2 == 0 and len(names) >= 3:
